@@ -6,6 +6,7 @@ from engine import cc, cfg, lib
 from engine.auto import cond_shape
 from engine.facts import erase, short_loc, CACHE
 from engine.lib import qe
+from engine.table import Interp, Unknown
 
 NS = "trompeloeil::"
 
@@ -92,44 +93,97 @@ def literal_or_sep(fn, t):
 SENTRY = NS + "stream_sentry"
 
 
+class _Stream:
+    """abstract formatting state of the stream a sentry guards: width, flags, fill - the three getter/setter pairs
+    of std::ios_base / std::basic_ios with their standard meaning (the setter returns the previous value)"""
+
+    def __init__(self, width, flags, fill):
+        self.st = {"width": width, "flags": flags, "fill": fill}
+        self.touched_other = False
+
+    def calls(self):
+        from rules.common import _args
+
+        def acc(key):
+            def h(t, it):
+                a = _args(t)
+                if len(a) == 1:
+                    return self.st[key]
+                old = self.st[key]
+                self.st[key] = it.ev(a[1])
+                return old
+            return h
+
+        def bor(t, it):
+            vals = [it.ev(x) for x in _args(t)]
+            out = frozenset()
+            for v in vals:
+                if not (isinstance(v, tuple) and v and v[0] == "flags"):
+                    raise Unknown("operand of | : %r" % (v,))
+                out |= v[1]
+            return ("flags", out)
+        return {"std::ios_base::width": acc("width"), "std::ios_base::flags": acc("flags"),
+                "std::basic_ios::fill": acc("fill"), "std::operator|": bor}
+
+
+def _sentry_oracle(stream, members):
+    from rules.common import Oracle
+    base = Oracle(calls=stream.calls(), members=members, params={0: ("obj", "stream")}, any_member=True)
+
+    def oracle(kind, t, it):
+        if kind == "gvar" and str(t[1]).startswith("std::ios_base::"):
+            return ("flags", frozenset([str(t[1]).rsplit("::", 1)[-1]]))
+        return base(kind, t, it)
+    return oracle
+
+
 def c18b(ctx, tu):
-    for fn in tu.find(SENTRY + "::stream_sentry"):
-        if fn.rec.get("special"):
+    """stream_sentry, decided on an abstract stream: after construction the stream is (width 0, flags dec|left, fill
+    ' ') whatever it was, and after destruction it is what it was before construction whatever the code in between
+    did to it - for every combination of changed / unchanged properties (an unconditional restore)."""
+    DEC_LEFT = ("flags", frozenset(["dec", "left"]))
+    origs = [(7, ("flags", frozenset(["hex", "right", "showbase"])), 42), (0, DEC_LEFT, 32)]
+    ctors = [f for f in tu.find(SENTRY + "::stream_sentry") if not f.rec.get("special")]
+    dtors = tu.find(SENTRY + "::~stream_sentry")
+    for fn in ctors:
+        why = None
+        saved_by_orig = []
+        try:
+            for o in origs:
+                stream = _Stream(*o)
+                it = Interp(fn, _sentry_oracle(stream, {}))
+                it.run()
+                st = stream.st
+                if (st["width"], st["flags"], st["fill"]) != (0, DEC_LEFT, 32) and why is None:
+                    why = "the sentry must install width 0, flags dec|left and fill ' ' (decimal, unpadded leaves); from " \
+                          "%s it leaves the stream at %s" % (o, (st["width"], st["flags"], st["fill"]))
+                saved = {erase(lv[1]): v for k, lv, v in it.effects if k == "store" and lv[0] == "member"}
+                vals = [v for v in saved.values()]
+                if not all(x in vals for x in o) and why is None:
+                    why = "the sentry must save the width, the flags and the fill the stream had; it keeps %s" % sorted(
+                        str(v) for v in vals)
+                saved_by_orig.append(saved)
+            ctx.ob("C18.b", SENTRY + "::stream_sentry", why is None, pattern=fn.pat, unit=tu.name, detail="" if why is None else why)
+        except Unknown as u:
+            ctx.ob("C18.b", SENTRY + "::stream_sentry", None, pattern=fn.pat, unit=tu.name, detail="cannot interpret: %s" % u)
             continue
-        inits = {erase(e["field"]).rsplit("::", 1)[-1]: e.get("x") for b, e in fn.events() if e["e"] == "init" and "field" in e}
-        def method(t):
-            return (lib.tree_name(t) or "").rsplit("::", 1)[-1]
-        ok = method(inits.get("width")) == "width" and method(inits.get("flags")) == "flags" and method(inits.get("fill")) == "fill"
-        why = "the sentry must save width, flags and fill by exchanging them"
-        if ok:
-            w = inits["width"][4]
-            fl = str(inits["flags"][4])
-            fi = inits["fill"][4]
-            ok = w == [["int", 0]] and fi in ([["char", 32]],) and "ios_base::dec" in fl and "ios_base::left" in fl \
-                and not any(x in fl for x in ("hex", "oct", "right", "internal", "showbase", "uppercase"))
-            why = "the sentry must install width 0, flags dec|left and fill ' ' (decimal, unpadded leaves)"
-        if ok:
-            ok = all("stream_sentry::os" in str(inits[k][3]) or "'param', 0" in str(inits[k][3]) for k in ("width", "flags", "fill"))
-            why = "the sentry must operate on the stream it was given"
-        ctx.ob("C18.b", SENTRY + "::stream_sentry", ok, pattern=fn.pat, unit=tu.name, detail="" if ok else why)
-    for fn in tu.find(SENTRY + "::~stream_sentry"):
-        restored = {}
-        for b, e in fn.events():
-            if e["e"] == "call" and "stream_sentry::os" in str(e.get("recv")):
-                mname = qe(e).rsplit("::", 1)[-1]
-                arg = e["args"][0] if e.get("args") else None
-                if isinstance(arg, list) and arg[:1] == ["member"]:
-                    restored[mname] = erase(arg[1]).rsplit("::", 1)[-1]
-        ok = restored == {"width": "width", "flags": "flags", "fill": "fill"}
-        why = "the sentry must restore width, flags and fill from what it saved; it restores %s" % restored
-        if ok:
-            # ... on every path: whatever ran under the sentry may have changed any of them
-            for b, i, e in cfg.find_events(fn, lambda e: e["e"] == "call" and "stream_sentry::os" in str(e.get("recv"))):
-                if fn.exit in cfg.reach(fn, fn.entry, avoid_blocks={b}):
-                    ok = False
-                    why = "the restore of %s is conditional: code that ran under the sentry may have changed it " \
-                          "(hexdump sets fill and base), so it must be restored on every path" % qe(e).rsplit("::", 1)[-1]
-        ctx.ob("C18.b", SENTRY + "::~stream_sentry", ok, pattern=fn.pat, unit=tu.name, detail="" if ok else why)
+        for dt in dtors:
+            why = None
+            try:
+                for o, saved in zip(origs, saved_by_orig):
+                    other = (3, ("flags", frozenset(["oct", "internal"])), 48)
+                    for mask in range(8):
+                        cur = tuple(other[i] if mask & (1 << i) else o[i] for i in range(3))
+                        stream = _Stream(*cur)
+                        Interp(dt, _sentry_oracle(stream, dict(saved))).run()
+                        st = stream.st
+                        if (st["width"], st["flags"], st["fill"]) != o and why is None:
+                            what = [n for i, n in enumerate(("width", "flags", "fill")) if (st["width"], st["flags"], st["fill"])[i] != o[i]]
+                            why = "the sentry must restore width, flags and fill to what they were on every path: with the " \
+                                  "stream at %s before the sentry and %s at its end, %s is not restored" % (o, cur, ", ".join(what))
+                ctx.ob("C18.b", SENTRY + "::~stream_sentry", why is None, pattern=dt.pat, unit=tu.name, detail="" if why is None else why)
+            except Unknown as u:
+                ctx.ob("C18.b", SENTRY + "::~stream_sentry", None, pattern=dt.pat, unit=tu.name, detail="cannot interpret: %s" % u)
 
 
 def c18c(ctx, tu):
